@@ -961,7 +961,7 @@ for _p in ("C07", "C18"):
     PROPS[_p]["families"].append(dict(family="stubs", trace_module="Trace_Stubs", random_quick=0, random_thorough=0, fixed=retry_fixed, exports=[], tag="retry"))
 
 # ------------------------------------------------------------------ the whole stack under a real tokio runtime (System.tla / ObsSys.tla)
-SYS_CONSTS = dict(Conns="{1, 2}", Keys="{1}", Calls="{1, 2}", N=1, L=1, Mif=2, Deadlines="{2, 9}", MaxTime=3, MaxEnv=7, Phased=True, ExportSched=False)
+SYS_CONSTS = dict(Conns="{1, 2}", Keys="{1}", Calls="{1, 2}", N=1, L=1, Mif=2, Deadlines="{2, 9}", MaxTime=3, MaxEnv=7, Phased=True, ExportSched=False, Faults=False)
 
 
 def sys_to_sched(g, consts):
@@ -1062,6 +1062,8 @@ PROPS["C18"]["families"].append(sys_family(500, 8000, sub="otel"))
 for _p in ("C09", "C14"):
     PROPS[_p]["families"].append(dict(family="sys", trace_module="Trace_Sys", random_quick=0, random_thorough=0, no_mech=True, tag="sys-faults",
                                       fixed=sys_fixed_faults, opts={"sub": "none"}, exports=[]))
+    # System.tla with Faults = TRUE: the server's transport of a connection may fail at any moment (S_SrvFault); ObsSys rules on every state
+    PROPS[_p]["models"].append(sys_model("system-faults", tiers=("quick", "thorough") if _p == "C09" else ("thorough",), Faults=True))
     PROPS[_p]["assumptions"] = PROPS[_p]["assumptions"] + [
         "sys-faults: one injected failure of the server's transport (read / readiness / flush, over the JSON and bincode "
         "transports) under spawn_incoming + Channel::execute on a tokio runtime; judged by ObsSys.tla (bad09 / bad14)"]
